@@ -161,3 +161,32 @@ Definition x_C09_asc_header_ok (v : val) : val :=
              end
          | _ => false
          end).
+
+(* concurrent writers.  case = ((frames of writer 0) (frames of writer 1) ...) triggers); the
+   triggers only script the interleaving in the harness (after writer a's n-th packet, writer b
+   writes its next frame in between).  Prediction: every writer's output is the single-writer
+   output of its own frames (C09_writers_independent); observation = (out0 out1 ...) *)
+Definition c09_writers (c : val) : list (list tsframe) := map c09_frames (as_list (nthv 0 c)).
+Definition x_C09_writers (c : val) : val := VL (map (fun fs => VB (ts_write_all fs)) (c09_writers c)).
+Fixpoint all_writers_ok (fss : list (list tsframe)) (outs : list val) : bool :=
+  match fss, outs with
+  | [], [] => true
+  | fs :: fss', VB out :: outs' => ok_writer fs out && all_writers_ok fss' outs'
+  | _, _ => false
+  end.
+Definition x_C09_writers_ok (v : val) : val :=
+  let c := nthv 0 v in
+  vbool (all_writers_ok (c09_writers c) (as_list (nthv 1 v))).
+
+(* two HLS streams fed alternately: case = (caseA caseB), observation = (0 (segsA) (segsB)) *)
+Definition c09_hls_case_ok (c : val) (segs : val) : bool :=
+  let fs := c09_aframes c in
+  let vids := removelast (filter (fun f => c_video (a_c f) && asrc_carried f) fs) in
+  let auds := map a_c (filter (fun f => negb (c_video (a_c f)) && asrc_carried f) fs) in
+  c09_env_ok c && ok_hls (c09_asc_spec c) vids auds (map as_bytes (as_list segs)).
+Definition x_C09_hls2_ok (v : val) : val :=
+  let c := nthv 0 v in let obs := nthv 1 v in
+  vbool (match obs with
+         | VL [VI 0; sa; sb] => c09_hls_case_ok (nthv 0 c) sa && c09_hls_case_ok (nthv 1 c) sb
+         | _ => false
+         end).
